@@ -663,7 +663,7 @@ func (Driver) Run(c *core.Ctx) {
 // sampled: depth-4 types, every single-position mutant, and a triple.
 func (r *run) sampled() {
 	c := r.c
-	n := int64(c.N(1500, 5000))
+	n := int64(c.N(800, 5000))
 	for i := int64(0); i < n; i++ {
 		if !c.Want(i) {
 			continue
